@@ -12,12 +12,13 @@ var propSpecs = map[string]PropSpec{
 				Covers: []string{"C11 simpleFmtPath compared"}},
 			{Pkg: "rux", Name: "verifHarness_C11_matchEquiv", Quick: map[string]int{"L": 2}, Thorough: map[string]int{"L": 3},
 				Covers: []string{"C11 match compared"}},
+			{Pkg: "rux", Name: "verifHarness_C11_encodedPath", NCfgQ: 5, Covers: []string{"C11 encoded path"}},
 		},
 		Assumptions: []string{
 			"oracle = single-pass normaliser written from the property text (harness c11.go: verifSpecNorm)",
 			"quick tier: bytes restricted to {'/',' ','.','%','a','b',TAB,0xC2,0xA0}; thorough: all 256 byte values for formatPath/simpleFmtPath",
 			"registered paths in the match harness contain no '{' or '[' (static routes)",
-			"UseEncodedPath clause is checked with the dispatch harnesses of C06 (choice of URL.Path vs EscapedPath())",
+			"UseEncodedPath clause: five concrete (decoded, escaped) pairs through ServeHTTP; url.URL.EscapedPath is the native function (net/url contract)",
 		},
 		Bounds:     map[string]string{"L": "string length 0..5 quick / 0..7 thorough (formatPath, simpleFmtPath); 0..3 / 0..4 for each of P, G, p in the match harness", "U": "instruction budget 20M per path"},
 		Symbolic:   []string{"every byte of the registered path, group prefix and request path"},
@@ -110,5 +111,97 @@ var propSpecs = map[string]PropSpec{
 		Bounds:     map[string]string{"cap": "capacity 0..3, n = 0..cap entries", "keys": "1-byte symbolic keys (aliasing decided by the solver)", "L": "router clause: path length 1..7 / 1..10 over the 26 dynamic patterns of C02"},
 		Symbolic:   []string{"all keys", "request path bytes"},
 		Enumerated: []string{"capacity", "fill level", "operation", "pattern"},
+	},
+	"C04": {
+		ID: "C04",
+		Harnesses: []HarnessSpec{
+			{Pkg: "rux", Name: "verifHarness_C04_onion", NCfgQ: 10368, SampleQ: 300, SampleT: 10368, Covers: []string{"C04 program run"}},
+			{Pkg: "rux", Name: "verifHarness_C04_cursor", Covers: []string{"C04 long chain"}},
+			{Pkg: "rux", Name: "verifHarness_C04_D8_witness", Witness: "D8"},
+		},
+		Assumptions: []string{
+			"oracle = onion trace computed from the registration program text with ideal integers (harness c04.go: verifOnion), never from rux's slices",
+			"behaviours: every handler calls Next() kd in {0,1,2} times, one deviant handler with its own count",
+			"chains whose cursor can exceed 62 by increments alone are the known findings D8/D9 and are checked by witness harnesses only",
+		},
+		Bounds:     map[string]string{"P": "registration-program family of 10368 programs (0-2 global middleware in up to three Use calls incl. after the routes, group/nested-group/route middleware counts, Use inside a group, later Route.Use, custom or default NotFound/NotAllowed); 300 sampled per quick run, all in thorough", "n": "cursor harness: chains of 8..20 handlers"},
+		Symbolic:   []string{"none beyond path/branch feasibility: this property's space is programs x behaviours, explored by forking (stated as enumerated)"},
+		Enumerated: []string{"registration programs", "request target (6 routes, 404, 405)", "per-handler Next() counts"},
+	},
+	"C05": {
+		ID: "C05",
+		Harnesses: []HarnessSpec{
+			{Pkg: "rux", Name: "verifHarness_C05_abort", Quick: map[string]int{"N": 4}, Thorough: map[string]int{"N": 6}, Covers: []string{"C05 abort scenario"}},
+			{Pkg: "rux", Name: "verifHarness_C05_nextStep", Covers: []string{"C05 next step", "C05 aborted cursor"}},
+			{Pkg: "rux", Name: "verifHarness_C05_longChain", Covers: []string{"C05 long chain"}},
+			{Pkg: "rux", Name: "verifHarness_C05_D9_witness", Witness: "D9"},
+		},
+		Assumptions: []string{
+			"AbortWithStatus codes are 100..599 (symbolic); the recording writer is the C08 stub",
+			"nextStep: the int8 cursor is a solver variable in [-1,100]; values 101..127 are reachable only through the recorded cursor overflow (known finding D8)",
+			"long chains (21..62 handlers) are checked for everything except IsAborted() sampled after Next(), which is the recorded known finding D9",
+		},
+		Bounds:     map[string]string{"N": "chains of 1..4 (quick) / 1..6 (thorough) handlers, 0..2 of them global, every aborting position, abort before/after/without Next, three abort APIs, optional second Next(), other handlers calling Next 0..2 times", "long": "chain lengths 21, 32, 40, 62 with abort at the first, middle, last handler"},
+		Symbolic:   []string{"status code of AbortWithStatus", "int8 chain cursor (one-step harness)"},
+		Enumerated: []string{"chain shapes", "abort position / time / API"},
+	},
+	"C06": {
+		ID: "C06",
+		Harnesses: []HarnessSpec{
+			{Pkg: "rux", Name: "verifHarness_C06_order", Quick: map[string]int{"L": 6}, Thorough: map[string]int{"L": 8}, NCfgQ: 16 * 11, SampleQ: 90,
+				Covers: []string{"C06 route", "C06 not allowed", "C06 not found"}},
+			{Pkg: "rux", Name: "verifHarness_C06_serve", Quick: map[string]int{"L": 6}, Thorough: map[string]int{"L": 8}, NCfgQ: 22,
+				Covers: []string{"C06 served route", "C06 served 404", "C06 served 405"}},
+			{Pkg: "rux", Name: "verifHarness_C06_intercept", Quick: map[string]int{"L": 3}, Thorough: map[string]int{"L": 5}, NCfgQ: 8 * 4 * 11, SampleQ: 120,
+				Covers: []string{"C06 intercept"}},
+		},
+		Assumptions: []string{
+			"oracle = the decision list of the statement over the independent pattern specification (spec.go); allowed set compared as a set, Allow header compared with the sorted join",
+			"request path in normal form for the order/serve harnesses; arbitrary bytes for the intercept harness",
+			"InterceptAll: twin router without the option queried with the target itself",
+		},
+		Bounds:     map[string]string{"L": "path length 1..6 / 1..8", "T": "11 tables (with and without '/*' routes, HEAD/GET pairs, overlapping methods) x 16 option sets {not-allowed, fallback, strict, caching}; 8 intercept targets incl. non-normalised spellings"},
+		Symbolic:   []string{"every byte of the request path"},
+		Enumerated: []string{"tables", "option sets", "request method (6)", "intercept target", "custom/default fallback handlers"},
+	},
+	"C08": {
+		ID: "C08",
+		Harnesses: []HarnessSpec{
+			{Pkg: "rux", Name: "verifHarness_C08_writerStep", Covers: []string{"C08 SetStatus", "C08 Write", "C08 Flush"}},
+			{Pkg: "rux", Name: "verifHarness_C08_sequence", Quick: map[string]int{"K": 4}, Thorough: map[string]int{"K": 6}, Covers: []string{"C08 sequence"}},
+		},
+		Assumptions: []string{
+			"one-step formulation from an arbitrary valid writer state (status, length, ghost counters symbolic, constrained by the invariant stated in harness c08.go), so operation sequences of any length are covered",
+			"the underlying ResponseWriter is a recording stub whose Write accepts a symbolic number of bytes in [0,len] and may return an error",
+		},
+		Bounds:     map[string]string{"K": "sequence cross-check: 4 / 6 operations from {SetStatus(symbolic int), Write, Flush, SetHeader} in one handler", "write": "buffers of 0..2 bytes in the one-step harness"},
+		Symbolic:   []string{"status codes (full int range)", "committed flag", "length", "bytes accepted", "write error"},
+		Enumerated: []string{"operation"},
+	},
+	"C09": {
+		ID: "C09",
+		Harnesses: []HarnessSpec{
+			{Pkg: "rux", Name: "verifHarness_C09_panic", Covers: []string{"C09 crash scenario"}},
+			{Pkg: "handlers", Name: "verifHarness_C09_panicsHandler", Covers: []string{"C09 PanicsHandler"}},
+		},
+		Assumptions: []string{
+			"panic value is a pointer (identity compared); hook status code symbolic in 100..599",
+			"sync.Pool stub hands the recycled context to the following request when one was returned",
+		},
+		Bounds:     map[string]string{"chain": "1..3 handlers (0..1 global), route / NotFound / NotAllowed chains, every crash position before or after Next(), hook absent / no-op / status / status+body, one following request"},
+		Symbolic:   []string{"hook status code"},
+		Enumerated: []string{"chain shape", "crash point", "hook behaviour"},
+	},
+	"C10": {
+		ID: "C10",
+		Harnesses: []HarnessSpec{
+			{Pkg: "rux", Name: "verifHarness_C10_dirtyContext", Covers: []string{"C10 context reused"}},
+		},
+		Assumptions: []string{
+			"the pooled context is havocked field by field (cursor any int8, data/params/errors/handlers/status/length/Resp/Req) before the request; any state an earlier request can leave is an instance, so histories of any length are covered",
+		},
+		Bounds:     map[string]string{"req": "next request is static, dynamic (1..3 symbolic id bytes), 404 or 405"},
+		Symbolic:   []string{"cursor", "writer status and length", "presence flags", "dynamic id bytes"},
+		Enumerated: []string{"number of stale errors/handlers", "request kind"},
 	},
 }
